@@ -155,12 +155,74 @@ theorem fromString_rep (N k : Nat) (str : List Nat) (pos n zeroCh oneCh : Nat) (
     ∃ ws', fromString N k str pos n zeroCh oneCh = .ok ws' ∧ Rep N k ws' (Spec.ofString N str pos n zeroCh) :=
   Members.fromString_rep N k str pos n zeroCh oneCh hpos hvalid
 
-/-- `bitset(char const* str, n, zero, one)`; preconditions: `[str, str + n)` readable (or `n == npos`)
-    and every used character is `zero` or `one` -/
-theorem fromCstr_rep (N k : Nat) (buf : List Nat) (n zeroCh oneCh : Nat) (hn : n = NPOS ∨ n ≤ buf.length)
-    (hvalid : (usedChars N buf 0 n).all (fun c => c == zeroCh || c == oneCh) = true) :
-    ∃ ws', fromCstr N k buf n zeroCh oneCh = .ok ws' ∧ Rep N k ws' (Spec.ofString N buf 0 n zeroCh) :=
-  Members.fromCstr_rep N k buf n zeroCh oneCh hn hvalid
+/-- `bitset(char const* str, n, zero, one)`.  `mem` = every unit that is readable from `str` (to the end of
+    its allocation).  Preconditions ([bitset.cons]): `cstrReadable mem n` — a terminator exists when `n == npos`,
+    `[str, str + n)` is readable otherwise (nothing is required at or behind `str + n`: no terminator) — and
+    every used character is `zero` or `one`.  The value is that of `std::bitset`: the digits are
+    `basic_string(str)` for `npos` and EXACTLY the first `n` units otherwise, null characters included
+    (`Spec.cstrChars`).  (Restated: the former statement took "the characters before the terminator" as its
+    buffer and therefore said nothing about null characters among the first `n` or about what is read.) -/
+theorem fromCstr_rep (N k : Nat) (mem : List Nat) (n zeroCh oneCh : Nat) (hn : cstrReadable mem n = true)
+    (hvalid : (usedChars N (Spec.cstrChars mem n) 0 n).all (fun c => c == zeroCh || c == oneCh) = true) :
+    ∃ ws', fromCstr N k mem n zeroCh oneCh = .ok ws' ∧ Rep N k ws' (Spec.ofCstr N mem n zeroCh) :=
+  Members.fromCstr_rep N k mem n zeroCh oneCh hn hvalid
+
+/-- non-vacuity, and the witness of the seeded change C17-r2-cstr-ctor-strlen: the raw digits
+    `{1,0,1,1,0,0,0,1}` in an exact-size buffer (no terminator), `n = 8`, `zero = CharT(0)`, `one = CharT(1)`
+    satisfy the hypotheses, and the specified value is 0b10110001 (a `strlen`-based reading gives 0b1) -/
+example : cstrReadable [1, 0, 1, 1, 0, 0, 0, 1] 8 = true ∧
+    (usedChars 8 (Spec.cstrChars [1, 0, 1, 1, 0, 0, 0, 1] 8) 0 8).all (fun c => c == 0 || c == 1) = true ∧
+    Spec.toNat 8 (Spec.ofCstr 8 [1, 0, 1, 1, 0, 0, 0, 1] 8 0) = 0b10110001 := by decide
+
+/-- the pointer overload IS the view constructor on the exact-size buffer of the characters `std::bitset`
+    uses — with no hypothesis on the characters (for invalid ones both sides behave alike) -/
+theorem fromCstr_eq (N k : Nat) (mem : List Nat) (n zeroCh oneCh : Nat) (hn : cstrReadable mem n = true) :
+    fromCstr N k mem n zeroCh oneCh = fromString N k (Spec.cstrChars mem n) 0 n zeroCh oneCh :=
+  Members.fromCstr_eq N k mem n zeroCh oneCh hn
+
+/-- `basic_string_view(CharT const*)` / `Traits::length` on a terminated buffer: the number of characters
+    before the first `CharT(0)`, and no read behind the terminator (never `.error`) -/
+theorem strlen_eq (mem : List Nat) (h0 : 0 ∈ mem) :
+    strlen mem = .ok (mem.takeWhile (fun c => c != 0)).length :=
+  Members.strlen_eq mem h0
+
+/-- **Footprint of the view constructor.**  The result on an exact-size buffer `str` (a view with
+    `size() = |str|` and nothing readable behind it) equals the result on any extension `str ++ ext` of the
+    allocation: nothing at or behind `data() + size()` is read — for every `pos`, `n` and every character
+    (no validity hypothesis; errors included). -/
+theorem fromString_footprint (N k : Nat) (str ext : List Nat) (pos n zeroCh oneCh : Nat) :
+    fromStringV N k (str ++ ext) str.length pos n zeroCh oneCh = fromString N k str pos n zeroCh oneCh :=
+  Members.fromString_footprint N k str ext pos n zeroCh oneCh
+
+/-- a view inside a larger allocation: only `mem.take size` matters -/
+theorem fromStringV_eq (N k : Nat) (mem : List Nat) (size pos n zeroCh oneCh : Nat) (hsz : size ≤ mem.length) :
+    fromStringV N k mem size pos n zeroCh oneCh = fromString N k (mem.take size) pos n zeroCh oneCh :=
+  Members.fromStringV_eq N k mem size pos n zeroCh oneCh hsz
+
+/-- **Footprint of the pointer overload with an explicit `n`.**  The result on the exact-size buffer of
+    `n = |buf|` units with NO terminator behind it equals the result on any extension of it: exactly the first
+    `n` units are read and no terminator is looked for — whatever the characters are (a `CharT(0)` among them
+    does not end the digits).  Together with `fromCstr_rep` on `buf`: never an error on the exact-size buffer. -/
+theorem fromCstr_footprint (N k : Nat) (buf ext : List Nat) (zeroCh oneCh : Nat) (hn : buf.length ≠ NPOS) :
+    fromCstr N k (buf ++ ext) buf.length zeroCh oneCh = fromCstr N k buf buf.length zeroCh oneCh :=
+  Members.fromCstr_footprint N k buf ext zeroCh oneCh hn
+
+/-- the same, for `n` smaller than the readable buffer: only the first `n` units matter -/
+theorem fromCstr_take (N k : Nat) (mem : List Nat) (n zeroCh oneCh : Nat) (hn : n ≠ NPOS) (hle : n ≤ mem.length) :
+    fromCstr N k mem n zeroCh oneCh = fromCstr N k (mem.take n) n zeroCh oneCh :=
+  Members.fromCstr_take N k mem n zeroCh oneCh hn hle
+
+/-- non-vacuity: `n = 3` on a 5-unit buffer -/
+example : (3 : Nat) ≠ NPOS ∧ 3 ≤ [49, 0, 49, 7, 7].length := by decide
+
+/-- **Footprint of the `npos` form**: the characters before the terminator and the terminator are read,
+    nothing behind it -/
+theorem fromCstr_npos_footprint (N k : Nat) (s ext : List Nat) (zeroCh oneCh : Nat) (hs : ∀ c, c ∈ s → c ≠ 0) :
+    fromCstr N k (s ++ 0 :: ext) NPOS zeroCh oneCh = fromCstr N k (s ++ [0]) NPOS zeroCh oneCh :=
+  Members.fromCstr_npos_footprint N k s ext zeroCh oneCh hs
+
+/-- non-vacuity: "101" -/
+example : ∀ c, c ∈ [49, 48, 49] → c ≠ 0 := by decide
 
 /-- `set(pos)` (and `unchecked_set(pos)`): the value defaults to `true` -/
 theorem setD_rep {N k : Nat} {ws : Words k} {f : Spec.Bits} (h : Rep N k ws f) (pos : Nat) (hp : pos < N) :
@@ -179,19 +241,24 @@ theorem fromStringD_rep (N k : Nat) (str : List Nat) (pos n zeroCh oneCh : Optio
 
 /-- `bitset(cstr [, n [, zero [, one]]])` with trailing arguments defaulted -/
 theorem fromCstrD_rep (N k : Nat) (buf : List Nat) (n zeroCh oneCh : Option Nat)
-    (hn : arg n NPOS = NPOS ∨ arg n NPOS ≤ buf.length)
-    (hvalid : (usedChars N buf 0 (arg n NPOS)).all (fun c => c == arg zeroCh CH0 || c == arg oneCh CH1) = true) :
+    (hn : cstrReadable buf (arg n NPOS) = true)
+    (hvalid : (usedChars N (Spec.cstrChars buf (arg n NPOS)) 0 (arg n NPOS)).all
+      (fun c => c == arg zeroCh CH0 || c == arg oneCh CH1) = true) :
     ∃ ws', fromCstrD N k buf n zeroCh oneCh = .ok ws' ∧
-      Rep N k ws' (Spec.ofString N buf 0 (arg n Spec.npos) (arg zeroCh Spec.ch0)) :=
+      Rep N k ws' (Spec.ofCstr N buf (arg n Spec.npos) (arg zeroCh Spec.ch0)) :=
   Members.fromCstrD_rep N k buf n zeroCh oneCh hn hvalid
 
-/-- non-vacuity: `bitset<9>("101")` and `bitset<9>("x1x", 3, 'x')` satisfy the hypotheses -/
+/-- non-vacuity: `bitset<9>("101")` (view), `bitset<9>("x1x", 3, 'x')` on an exact-size buffer without
+    terminator and `bitset<9>("10")` (pointer, terminated) satisfy the hypotheses -/
 example : (arg Option.none 0 ≤ [49, 48, 49].length ∧
     (usedChars 9 [49, 48, 49] (arg Option.none 0) (arg Option.none NPOS)).all
       (fun c => c == arg Option.none CH0 || c == arg Option.none CH1) = true) ∧
-    ((arg (some 3) NPOS = NPOS ∨ arg (some 3) NPOS ≤ [120, 49, 120].length) ∧
-    (usedChars 9 [120, 49, 120] 0 (arg (some 3) NPOS)).all
-      (fun c => c == arg (some 120) CH0 || c == arg Option.none CH1) = true) := by decide
+    (cstrReadable [120, 49, 120] (arg (some 3) NPOS) = true ∧
+    (usedChars 9 (Spec.cstrChars [120, 49, 120] (arg (some 3) NPOS)) 0 (arg (some 3) NPOS)).all
+      (fun c => c == arg (some 120) CH0 || c == arg Option.none CH1) = true) ∧
+    (cstrReadable [49, 48, 0] (arg Option.none NPOS) = true ∧
+    (usedChars 9 (Spec.cstrChars [49, 48, 0] (arg Option.none NPOS)) 0 (arg Option.none NPOS)).all
+      (fun c => c == arg Option.none CH0 || c == arg Option.none CH1) = true) := by decide
 
 /-- one valid operation: never an error, every object still represented (padding included), and
     the abstract state moved as `std::bitset` specifies -/
@@ -268,6 +335,13 @@ theorem toUnsigned_narrow {N k : Nat} {ws : Words k} {f : Spec.Bits} (h : Rep N 
 theorem toStr_eq {N k : Nat} {ws : Words k} {f : Spec.Bits} (h : Rep N k ws f) (zeroCh oneCh cap : Nat)
     (hcap : N ≤ cap) : toStr N ws zeroCh oneCh cap = .ok (Spec.toStr N f zeroCh oneCh) :=
   Members.toStr_eq h zeroCh oneCh cap hcap
+
+/-- `to_string` into a string of EXACTLY `Bits` characters of capacity (`to_string<Bits, CharT>`): every
+    `push_back` finds room, the result has `Bits` characters — the capacity is used up to the last unit and not
+    exceeded -/
+theorem toStr_exact_capacity {N k : Nat} {ws : Words k} {f : Spec.Bits} (h : Rep N k ws f) (zeroCh oneCh : Nat) :
+    ∃ str, toStr N ws zeroCh oneCh N = .ok str ∧ str.length = N ∧ str = Spec.toStr N f zeroCh oneCh :=
+  ⟨_, Members.toStr_eq h zeroCh oneCh N (Nat.le_refl N), by simp [Spec.toStr], rfl⟩
 
 /-- `to_string<Capacity, CharT>()` / `to_string<Capacity, CharT>(zero)`: the defaulted characters
     `CharT('0')`, `CharT('1')` are those of `std::bitset::to_string` -/
